@@ -265,6 +265,23 @@ def check_purge_paths(prop: str, res: Result, repo: Repo):
 
     rule = "R-PURGE"
     pg = repo.method("hexital.core.indicator", "Indicator", "purge")
+    # the name set holds names of series (the indicator's own and its helpers' `.name`s): the keys under which a composite files its
+    # managed helpers ("signal", "dx", ...) are labels, not series, and may be another indicator's name
+    pn_ = repo.indicator_base().methods.get("_purge_names")
+    if pn_ is not None:
+        def _registry(e):
+            return any(isinstance(x, ast.Attribute) and x.attr in ("managed_indicators", "sub_indicators") for x in ast.walk(e))
+
+        for n_ in ast.walk(pn_.node):
+            keys_used = None
+            if isinstance(n_, ast.Starred) and _registry(n_.value) and not any(isinstance(x, ast.Call) and call_name(x) in ("values", "_purge_names") for x in ast.walk(n_.value)):
+                keys_used = n_
+            elif isinstance(n_, (ast.For, ast.comprehension)) and _registry(n_.iter) and not any(isinstance(x, ast.Call) and call_name(x) in ("values", "items") for x in ast.walk(n_.iter)):
+                keys_used = n_.iter
+            elif isinstance(n_, ast.Call) and call_name(n_) in ("keys",) and _registry(n_):
+                keys_used = n_
+            if keys_used is not None:
+                res.fail(rule, finding(prop, rule, pn_, keys_used, "the purge name set takes the KEYS of a helper registry: managed helpers are filed under local labels ('signal', 'dx', 'STOCH_d' ...), which are not series of this indicator: purging it also removes the readings of any other indicator that happens to be called like one of those labels"))
     n = 0
     for p in stmt_paths(pg.node.body):
         if not normal_exit(p):
